@@ -8,6 +8,7 @@ import (
 	"bufio"
 	"bytes"
 	"context"
+	"encoding/json"
 	"fmt"
 	"os"
 	"os/exec"
@@ -195,7 +196,7 @@ func (o SolveOpts) maxRecheck() int {
 	if o.MaxRecheck > 0 {
 		return o.MaxRecheck
 	}
-	return 6
+	return 40
 }
 
 type SolveOpts struct {
@@ -336,19 +337,26 @@ func solveUnit(vc *VC, opts SolveOpts) map[int]bool {
 			if o.Status != "unsat" {
 				recheck(vc, pre, o, opts)
 			}
-			if o.Status != "unsat" && o.Model == "" {
+			if o.Status != "unsat" {
+				o.Model = ""
 				// candidate counterexample from the quantifier-free weakening of the
 				// hypotheses (to be confirmed by replay on the real code)
+				keys := vc.modelKeys(vc.e, vc.unit)
 				var values []string
-				for _, d := range vc.decls {
-					f := strings.Fields(d)
-					if len(f) >= 4 && f[2] == "()" && (strings.HasPrefix(f[1], "p_") || strings.HasPrefix(f[1], "fv_") || f[1] == "alloc0") && (f[3] == "Int" || f[3] == "Bool") {
-						values = append(values, f[1])
-					}
+				for _, k := range keys {
+					values = append(values, k.Term)
 				}
 				st, model, _, _ := singleQuery(solvers[0], vc.preambleOpt(flags, true), o, 5000, values)
-				if st == "sat" {
-					o.Model = model
+				if st == "sat" && len(keys) > 0 {
+					vals := parseModelOrdered(model)
+					mm := map[string]string{}
+					for i, k := range keys {
+						if i < len(vals) {
+							mm[k.Key] = vals[i]
+						}
+					}
+					b, _ := json.Marshal(mm)
+					o.Model = string(b)
 					o.Note += "[candidate model from the quantifier-free weakening of the hypotheses]\n"
 				}
 			}
